@@ -391,9 +391,31 @@ func init() {
 				if ops[i].K == "update" && r.Chance(0.04) {
 					ops[i].M, ops[i].MV = "xsig_unknown", uint64(Pick(r, 90, 95, 96, 97, 98, 99, 100))
 				}
+				if ops[i].K == "update" && (ops[i].M == "" || ops[i].M == "ext") && r.Chance(0.12) {
+					// notes whose size sits just below a power of two (a size cap applied to the submitted note is
+					// then exceeded by the cosigned one the witness stores)
+					ops[i].M, ops[i].MV = "pad_to", uint64(Pick(r, 1024, 2048, 4096, 8192, 16384, 32768, 65536)-r.IntN(320))
+				}
 			}
 			p.Ops = ops
 			p.Cfg.Extra = map[string]int64{"probe_from": int64(len(ops))}
+			if n%3 == 2 {
+				// "refused" includes refused because storage failed: faults during the prior history only, probes fault-free
+				p.Cfg.Extra["tail_from"] = int64(len(ops))
+				p.Cfg.Seam, p.Cfg.Clients, p.Cfg.Strategy = "iface", 1, "uniform"
+				if p.Cfg.Store == "sqlite" && r.Bool() {
+					p.Cfg.Seam = "driver"
+					for occ := 0; occ < 3*len(ops); occ++ {
+						for _, call := range []string{"drv.Begin", "drv.Query", "drv.Next", "drv.Exec", "drv.Commit", "drv.Rollback"} {
+							if r.Chance(0.06) {
+								p.Faults = append(p.Faults, Fault{At: fmt.Sprintf("c0:%s#%d", call, occ), Kind: "fail"})
+							}
+						}
+					}
+				} else {
+					addFaults(r, p, 0.1)
+				}
+			}
 			for l := range p.Cfg.Logs {
 				k := r.Range(1, 3)
 				for i := 0; i < k; i++ {
